@@ -49,7 +49,11 @@ fn generate(rng: &mut Rng) -> C17Sc {
         if proxy.is_some() {
             let src: std::net::SocketAddr = format!("198.51.100.{}:{}", 1 + i % 200, 51_000 + i).parse().unwrap();
             let dst: std::net::SocketAddr = "192.0.2.200:25565".parse().unwrap();
-            let h = if rng.chance(1, 2) { v1_header(&src, &dst) } else { v2_header(&src, &dst, false) };
+            let mut h = if rng.chance(1, 2) { v1_header(&src, &dst) } else { v2_header(&src, &dst, false) };
+            // a valid header that announces no address (v2 LOCAL, v1 UNKNOWN): a connection in progress like any other
+            if rng.chance(1, 5) {
+                h = if rng.chance(1, 2) { v2_header(&src, &dst, true) } else { b"PROXY UNKNOWN\r\n".to_vec() };
+            }
             let hl = h.len() as u64;
             spec.preamble = Some(h);
             // the header trickles in: complete only seconds later, or just inside the deadline
